@@ -101,67 +101,48 @@ def check_reader(ctx, oid="C13.2"):
         missing = [v for v in set(op_int.values()) if v not in int_op]
         R.check(oid, "TABLE", fi, "byte->name map inverts name->byte map (up to aliases)", not inv_bad and not missing,
                 "inverse map inconsistent: %s %s" % (inv_bad[:3], missing[:3]))
-    # probe once to find the loop and its carried buffer
-    s0 = ev.run(fi, {"witness": False})
-    loops = [lp for lp in s0.loops if lp.func == fi.qualname and lp.kind == "while"]
-    R.check(oid, "TILE", fi, "one decoding loop", len(loops) == 1, "decode_script has %d loops" % len(loops))
-    if len(loops) != 1:
-        return
-    lp0 = loops[0]
-    bufvar = [v for v in lp0.body if tm.veq(lp0.cond, tm.truth(T("acc", (v, lp0.depth), tm.BYTES)))]
-    lstvar = [v for v, val in lp0.body.items() if tm.tyof(lp0.init.get(v)) == tm.LIST or isinstance(lp0.init.get(v), list)]
-    R.check(oid, "TILE", fi, "loop runs while bytes remain", len(bufvar) == 1 and len(lstvar) >= 1, "loop condition is %s" % tm.show(lp0.cond)[:100])
-    if len(bufvar) != 1 or not lstvar:
-        return
-    bv_, lv = bufvar[0], lstvar[0]
-    acc = T("acc", (bv_, lp0.depth), tm.BYTES)
-    lacc = T("acc", (lv, lp0.depth), tm.LIST)
+    # the reader on crafted scripts: <token starting with byte v> OP_DUP, the token's data an arbitrary string of the length its
+    # prefix announces. Evaluated on that structure the decoding loop runs to the end, whatever its shape (re-slicing the
+    # remainder, an offset cursor, helper functions); result and refusals are compared for all 256 first bytes.
     bad = []
     n = 0
+    pname = fi.params()[0]
     for v in range(256):
-        ev.bind = {tm.idx(acc, 0): v}
-        s = ev.run(fi, {"witness": False})
-        lp = [l for l in s.loops if l.func == fi.qualname and l.kind == "while"][0]
-        nb, nl = lp.body.get(bv_), lp.body.get(lv)
-        raises_in_loop = [e for e in lp.exits if e.kind == "raise" and tm.land([g for g in e.guard if not (isinstance(g, T) and g.op == "iter")]) is True]
         n += 1
+        cases = []
         if 1 <= v <= 75:
-            wi, wr = tm.hexs(tm.slc(acc, 1, 1 + v)), tm.slc(acc, 1 + v, None)
+            cases = [(bytes([v]), v)]
         elif v == 0x4C:
-            ln = tm.idx(tm.slc(acc, 1, None), 0)
-            wi, wr = tm.hexs(tm.slc(acc, 2, tm.add([2, ln]))), tm.slc(acc, tm.add([2, ln]), None)
+            cases = [(bytes([v, L]), L) for L in (1, 76, 255)]
         elif v == 0x4D:
-            ln = tm.b2i(tm.slc(acc, 1, 3), "little")
-            wi, wr = tm.hexs(tm.slc(acc, 3, tm.add([3, ln]))), tm.slc(acc, tm.add([3, ln]), None)
+            cases = [(bytes([v]) + L.to_bytes(2, "little"), L) for L in ((1, 256, 520) + ((65535,) if ctx.thorough else ()))]
         elif v == 0x4E:
-            ln = tm.b2i(tm.slc(acc, 1, 5), "little")
-            wi, wr = tm.hexs(tm.slc(acc, 5, tm.add([5, ln]))), tm.slc(acc, tm.add([5, ln]), None)
-        else:
-            names = [k for k, b in OPCODES.items() if b == v]
-            if not names:
-                undefined_ok = bool(raises_in_loop) or tm.contains(nl, lambda t: isinstance(t, T) and t.op == "raise") or \
-                    tm.contains(nb, lambda t: isinstance(t, T) and t.op == "raise")
-                if not undefined_ok:
-                    bad.append((v, "undefined opcode byte is decoded to %s" % tm.show(nl)[:80]))
-                continue
-            wr = tm.slc(acc, 1, None)
-            okn = tm.veq(nb, wr) and isinstance(nl, T) and nl.op == "lcat" and tm.veq(nl.args[0], lacc) and \
-                isinstance(rules.unfz(nl.args[1]), list) and rules.unfz(nl.args[1])[0] in names
-            if not okn:
-                bad.append((v, "byte %02x decodes to %s / remainder %s" % (v, tm.show(nl)[:80], tm.show(nb)[:60])))
+            cases = [(bytes([v]) + L.to_bytes(4, "little"), L) for L in ((1, 300) + ((65536,) if ctx.thorough else ()))]
+        if cases:
+            for prefix, L in cases:
+                d = tm.sized("item", L)
+                kind, val = rules.strict_outcome(ev.run(fi, {pname: tm.cat([prefix, d, b"\x76"]), "witness": False}))
+                val = rules.unfz(val)
+                ok = kind == "return" and isinstance(val, (list, tuple)) and len(val) == 2 and tm.veq(val[0], tm.hexs(d)) and val[1] == "OP_DUP"
+                if not ok:
+                    bad.append((v, "push %s with %d bytes of data, then OP_DUP: %s %s; expected [hex(data), 'OP_DUP']" % (prefix.hex(), L, kind, tm.show(val)[:100])))
             continue
-        okp = tm.veq(nb, wr) and tm.veq(nl, tm.lcat([lacc, [wi]]))
-        if not okp:
-            bad.append((v, "push byte %02x: item %s remainder %s; expected item %s remainder %s" % (
-                v, tm.show(nl)[:120], tm.show(nb)[:80], tm.show(wi)[:80], tm.show(wr)[:60])))
-    ev.bind = {}
+        names = [k for k, b_ in OPCODES.items() if b_ == v]
+        kind, val = rules.strict_outcome(ev.run(fi, {pname: bytes([v]) + b"\x76", "witness": False}))
+        val = rules.unfz(val)
+        if not names:
+            if kind != "raise":
+                bad.append((v, "undefined opcode byte %02x is decoded to %s %s" % (v, kind, tm.show(val)[:80])))
+            continue
+        ok = kind == "return" and isinstance(val, (list, tuple)) and len(val) == 2 and val[0] in names and val[1] == "OP_DUP"
+        if not ok:
+            bad.append((v, "byte %02x then OP_DUP decodes to %s %s, expected [%s, 'OP_DUP']" % (v, kind, tm.show(val)[:80], "/".join(names))))
     R.floor(oid, n, 256, "first_byte_values")
     R.check(oid, "DECISION-TABLE", fi, "reader table over all 256 first-byte values", not bad,
             "%d first-byte values decoded wrongly; first: %s" % (len(bad), bad[0][1] if bad else ""),
             example=("script starting with byte 0x%02x" % bad[0][0]) if bad else None)
-    rets = s0.returns()
-    R.check(oid, "TILE", fi, "non-witness mode returns the decoded list", bool(rets) and isinstance(rets[-1].value, T) and rets[-1].value.op == "loopout"
-            and rets[-1].value.args[0] == lv, "decode_script returns %s" % (tm.show(rets[-1].value)[:80] if rets else None))
+    kind, val = rules.strict_outcome(ev.run(fi, {pname: b"", "witness": False}))
+    R.check(oid, "TILE", fi, "the empty script decodes to the empty list", kind == "return" and rules.unfz(val) == [], "decode_script(b'') gives %s %s" % (kind, tm.show(val)[:60]), nontrivial=False)
 
 
 # ----------------------------------------------------------------------------- builders
